@@ -15,6 +15,9 @@ def _init_worker():
     warnings.filterwarnings("ignore")
     if REPO not in sys.path:
         sys.path.insert(0, REPO)
+    cpp = os.environ.get("VERIF_CPP_DIR")       # the compiled backend (C17) must be importable before torchtt is imported
+    if cpp and cpp not in sys.path:
+        sys.path.insert(0, cpp)
     import torch
     torch.set_num_threads(1)
 
